@@ -124,7 +124,7 @@ class Call:
     take: int = 0  # ticks / exchanges attempted before the ending
     ending: str = "exhaust"  # exhaust | close | cancel | ctx
     inputs: list[tuple] = field(default_factory=list)  # exchange inputs: (kind, v, w); kind in ok|nulls|multi
-    in_schema: str = "ok"  # ok | reorder | widen | badset  (one input schema per stream)
+    in_schema: str = "ok"  # ok | reorder | widen | badset | reorder_widen | reorder_nonnull  (one input schema per stream)
     cb_raise_at: int | None = None  # client log callback raises on its i-th invocation within this call
     reject: str | None = None  # None | unknown | version | badparam | badvalue  (pre-dispatch rejection)
     label: str = ""
